@@ -118,6 +118,10 @@ func refRun(p *Program, upTo *uint64, st *refState) []Rec {
 					break
 				}
 
+				if ev.Time+c.Delta < ev.Time {
+					continue // there is no time after the largest one
+				}
+
 				st.pending = append(st.pending, refPending{Rec{
 					Time: ev.Time + c.Delta, Tag: c.Tag, H: c.H,
 					Secondary: c.Secondary, Ord: st.scheduled,
@@ -218,6 +222,10 @@ func (h *progHandler) Handle(e timing.Event) error {
 		for _, c := range r.p.Table[ev.tag] {
 			if r.scheduled >= r.p.MaxEvents {
 				break
+			}
+
+			if ev.time+timing.VTimeInPicoSec(c.Delta) < ev.time {
+				continue // there is no time after the largest one
 			}
 
 			r.eng.Schedule(&progEvent{
@@ -328,6 +336,16 @@ func GenProgram(r *kit.Rand, tier kit.Tier) Program {
 		c := child()
 		c.Delta = r.PickU64(0, 0, 1, 5, 5, 10, 1000, 1000)
 		p.Initial = append(p.Initial, c)
+	}
+
+	// one program in eight also has events far in the future (a watchdog, an "end
+	// of simulation" marker): half the time range away and at its very end
+	if r.Chance(1, 8) {
+		for i := 0; i < r.Range(1, 3); i++ {
+			c := child()
+			c.Delta = r.PickU64(1<<63, 1<<63+5, 1<<63-1, ^uint64(0)-1, ^uint64(0))
+			p.Initial = append(p.Initial, c)
+		}
 	}
 
 	return p
